@@ -13,22 +13,31 @@ Step(a) ==
     \/ a.op = "Delete" /\ Delete(a.p)
     \/ a.op = "Mutate" /\ Mutate(a.p, a.c, a.ino, a.mt)
     \/ a.op = "Query" /\ Query(ToSet(a.P), a.alg, a.api)
+    \/ a.op = "QueryRace" /\ QueryRace(a.p, a.alg, a.api, a.c, a.ino, a.mt, a.when)
     \/ a.op = "Inject" /\ Inject(a.p, a.kind)
     \/ a.op = "Snapshot" /\ Snapshot
     \/ a.op = "Carry" /\ Carry
 Match == /\ Have /\ Step(Ev.act)
-         /\ (Ev.act.op \in {"Query", "Carry"} => last'.ans = AnsOf(Ev))
+         /\ (Ev.act.op \in {"Query", "Carry", "QueryRace"} => last'.ans = AnsOf(Ev))
          /\ l' = l + 1 /\ UNCHANGED tid
 Say(tag, clause) == PrintT(<<tag, "C13", clause, tid, l, {}>>)
 \* a diverging step: keep the files (they are driven by the harness), forget the cache rows of the paths involved
 Resync ==
-    /\ UNCHANGED <<file, used, clock, carried>>
-    /\ row' = IF Ev.act.op = "Query" THEN [p \in Paths |-> IF p \in ToSet(Ev.act.P) THEN None ELSE row[p]] ELSE row
+    /\ IF Ev.act.op = "QueryRace"
+       THEN LET a == Ev.act
+                f == [ino |-> IF a.ino THEN clock ELSE file[a.p].ino, mt |-> IF a.mt THEN clock ELSE file[a.p].mt, c |-> a.c]
+            IN file' = [file EXCEPT ![a.p] = f] /\ used' = [used EXCEPT ![a.p] = @ \cup {Tok(f)}] /\ clock' = clock + 1
+       ELSE UNCHANGED <<file, used, clock>>
+    /\ UNCHANGED carried
+    /\ row' = IF Ev.act.op = "QueryRace" THEN [row EXCEPT ![Ev.act.p] = None] ELSE
+              IF Ev.act.op = "Query" THEN [p \in Paths |-> IF p \in ToSet(Ev.act.P) THEN None ELSE row[p]] ELSE row
     /\ last' = [op |-> Ev.act.op, ans |-> AnsOf(Ev)] /\ act' = [op |-> Ev.act.op] /\ steps' = steps + 1
 Fail == Have /\ ~ENABLED Match /\ Resync /\ l' = l + 1 /\ UNCHANGED tid /\ Say("DIVERGENCE", Ev.act.op)
 Judge ==
     /\ (Ev.act.op = "Query" => (C13_NeverStale(file', AnsOf(Ev)) \/ Say("VERDICT", "StaleHashFromCache:" \o Ev.act.api)))
     /\ (Ev.act.op = "Query" => (Ev.pads_ok \/ Say("VERDICT", "BatchLookupDisagrees")))
+    \* the in-flight query of a race answers with the hash of what it read: the bytes from before or after the write
+    /\ (Ev.act.op = "QueryRace" => (AnsOf(Ev)[Ev.act.p] \in {file[Ev.act.p].c, file'[Ev.act.p].c} \/ Say("VERDICT", "StaleHashFromCache:" \o Ev.act.api)))
     /\ (Ev.act.op = "Carry" => (C13_NeverStale(file', AnsOf(Ev)) \/ Say("VERDICT", "StaleHashCarriedOver")))
 TraceNext == (Match \/ Fail) /\ Judge
 TraceSpec == TraceInit /\ [][TraceNext]_allvars
